@@ -2,7 +2,8 @@
 //
 // parse_toggle(content) is compared with an independent byte-level reading of the documented rule:
 //   opener `//`, `{` or `(*`;  ASCII blanks*;  `pasfmt` in any letter case;  ASCII blank+;
-//   the maximal ASCII-alphanumeric word is exactly `on` / `off` in any letter case.
+//   the word that follows - it ends where an identifier would end: before the first byte that is not a letter, digit,
+//   `_` or part of a non-ASCII character - is exactly `on` / `off` in any letter case (C07: "only for the exact words").
 // FormattingToggler::ignore_tokens marks exactly: every token from an `off` comment up to and
 // including the next `on` comment (or the end), and nothing else.
 #[cfg(kani)]
@@ -13,7 +14,7 @@ mod verif_toggle {
         b == b' ' || b == b'\t' || b == b'\n' || b == 0x0C || b == b'\r'
     }
     fn alnum(b: u8) -> bool {
-        (b >= b'0' && b <= b'9') || (b >= b'a' && b <= b'z') || (b >= b'A' && b <= b'Z')
+        (b >= b'0' && b <= b'9') || (b >= b'a' && b <= b'z') || (b >= b'A' && b <= b'Z') || b == b'_' || b >= 0x80
     }
     fn low(b: u8) -> u8 {
         if b >= b'A' && b <= b'Z' { b + 32 } else { b }
